@@ -179,7 +179,7 @@ class Unit:
         return gb2
 
     def cbmc_cmd(self, proof, gb, extra=()):
-        cmd = ['cbmc'] + (BASE_CHECKS if proof.get('base_checks', True) else []) + proof.get('checks', []) + ['--slice-formula', '--object-bits', str(proof.get('object_bits', 10))]
+        cmd = ['cbmc'] + [c for c in (BASE_CHECKS if proof.get('base_checks', True) else []) if c not in proof.get('no_checks', [])] + proof.get('checks', []) + ['--slice-formula', '--object-bits', str(proof.get('object_bits', 10))]
         if proof.get('mode', 'dfcc') != 'dfcc':
             cmd += ['--function', proof['entry']] if False else []
             if proof.get('unwind'):
